@@ -533,11 +533,6 @@ class SymNumpy:
             return x.shape
         return _np.shape(x)
 
-    def minimum(self, a, b, **kw):
-        return SymUfunc(_np.minimum)(a, b, **kw)
-
-    def maximum(self, a, b, **kw):
-        return SymUfunc(_np.maximum)(a, b, **kw)
 
 
 class SymUfunc:
